@@ -16,12 +16,12 @@ func init() { families["handshake"] = famHandshake }
 //
 //	inbound  (raw client opens against a real server)
 //	  A: init req x version{0,1,2,3,65535} x id{1,0,0xfffffffe} x params{both,no host_port,no process_name,none}
-//	     x host_port{ephemeral,real} x cut{whole, 8 bytes, mid-payload (stream cut short),
-//	       well-framed short frame after the count, well-framed short frame inside the params}  = 600
+//	     x host_port{ephemeral,real,present but empty} x cut{whole, 8 bytes, mid-payload (stream cut short),
+//	       well-framed short frame after the count, well-framed short frame inside the params}  = 900
 //	  B: first frame of another type (11 types) x cut{whole,8 bytes}                         = 22
 //	  C: silence past the deadline                                                            = 1
 //	outbound (real client connects to a raw server)
-//	  D: reply init res x version(5) x id{echo,wrong} x params(4) x host_port(2) x cut(5)    = 400
+//	  D: reply init res x version(5) x id{echo,wrong} x params(4) x host_port(3) x cut(5)    = 600
 //	  E: reply of another type (6 types) x id{echo,wrong}                                    = 12
 //	  F: silence                                                                             = 1
 //
@@ -34,10 +34,10 @@ var (
 )
 
 const (
-	hsA = 5 * 3 * 4 * 2 * 5
+	hsA = 5 * 3 * 4 * 3 * 5
 	hsB = 11 * 2
 	hsC = 1
-	hsD = 5 * 2 * 4 * 2 * 5
+	hsD = 5 * 2 * 4 * 3 * 5
 	hsE = 6 * 2
 	hsF = 1
 )
@@ -162,8 +162,8 @@ func (w *World) hsInbound(srv *Node, c int) {
 		x := c
 		cut := x % 5
 		x /= 5
-		hp := x % 2
-		x /= 2
+		hp := x % 3
+		x /= 3
 		ps := x % 4
 		x /= 4
 		id := hsIDs[x%3]
@@ -172,8 +172,10 @@ func (w *World) hsInbound(srv *Node, c int) {
 		hostPort := "0.0.0.0:0"
 		if hp == 1 {
 			hostPort = "10.0.9.1:7000"
+		} else if hp == 2 {
+			hostPort = "" // the header is there, its value is empty: an ephemeral peer as well
 		}
-		ephemeral = hp == 0
+		ephemeral = hp != 1
 		frame = wire.EncInit(wire.TInitReq, id, ver, hsParams(ps, hostPort, "rawproc"))
 		frame, truncated = hsCut(frame, cut)
 		wantAccept = ver >= 2 && ps == 0 && !truncated
@@ -302,8 +304,8 @@ func (w *World) hsOutbound(c int) {
 		x := c
 		cut := x % 5
 		x /= 5
-		hp := x % 2
-		x /= 2
+		hp := x % 3
+		x /= 3
 		ps := x % 4
 		x /= 4
 		wrongID := x%2 == 1
@@ -312,8 +314,10 @@ func (w *World) hsOutbound(c int) {
 		hostPort := "0.0.0.0:0"
 		if hp == 1 {
 			hostPort = "10.0.8.1:6000"
+		} else if hp == 2 {
+			hostPort = ""
 		}
-		ephemeral = hp == 0
+		ephemeral = hp != 1
 		trunc := cut != 0
 		wantAccept = ver == 2 && !wrongID && ps == 0 && !trunc
 		desc = fmt.Sprintf("outbound init res version=%d wrongid=%v params=%d host_port=%s cut=%d", ver, wrongID, ps, hostPort, cut)
